@@ -124,7 +124,7 @@ Definition zdebug_bad (d : descriptor) : Prop :=
      be_decode (firstn 8 (skipn 4 (ds_stream d))) <> zlen out).
 
 Theorem zdebug_bad_framing_rejected d : zdebug_bad d ->
-  decompress_dwarf_section inflate d = Err (EPy "AssertionError").
+  decompress_dwarf_section inflate d = Err ECompress.
 Proof.
   unfold decompress_dwarf_section. intros [H|[H|[Hlen [out [eof [Hi Hne]]]]]].
   - destruct (Z.ltb_spec 12 (ds_size d)); [lia|reflexivity].
